@@ -39,7 +39,7 @@ RULE = (
 )
 PROBES = ["gate_after_reset", "random_measurement_on_photon", "control_on_photon", "wrapper_len_ge3",
           "forced_value_impossible", "full_branch_sweep", "sampled_branches", "initial_state_used",
-          "inserted_op", "measurement_prob_near_deterministic", "compiler_reused_after_other_circuit"]
+          "inserted_op", "measurement_prob_near_deterministic", "compiler_reused_after_other_circuit", "edited_after_compile"]
 REAL = ["graphiq.backends.compiler_base.CompilerBase.compile", "StabilizerCompiler.compile_one_gate",
         "DensityMatrixCompiler.compile_one_gate", "graphiq.backends.stabilizer (tableau functions)",
         "graphiq.backends.density_matrix (state, functions)", "graphiq.circuit.circuit_dag.CircuitDAG", "graphiq.circuit.ops"]
@@ -110,6 +110,9 @@ def gen_case(run_seed, tier):
             else:
                 init.append([wl.choice(["H", "P", "X", "Y", "Z", "Pd"]), wl.randrange(regs)])
     case = {"ne": ne, "np": np_, "nc": nc, "history": prog, "init": init, "bseed": sz.randrange(10**9)}
+    if sz.random() < 0.3:
+        # the circuit object is edited after it has been compiled (replace_op on a one-qubit gate) and compiled again
+        case["post_edit"] = [sz.randrange(1000), sz.randrange(1000)]
     if sz.random() < 0.5:
         # a sibling circuit compiled first with the *same compiler objects*: a compile must not depend on what the
         # compiler compiled before (same total register count but another emitter/photon split when possible)
@@ -121,6 +124,10 @@ def gen_case(run_seed, tier):
 
 
 def simplify(case):
+    if case.get("post_edit"):
+        c = dict(case)
+        c.pop("post_edit")
+        yield c
     if case.get("sibling"):
         c = dict(case)
         c.pop("sibling")
@@ -446,5 +453,27 @@ def run_case(case):
         elif ok:
             ctx.probe("full_branch_sweep")
             ctx.fault("branch_sweep")
+    if ok and case.get("post_edit"):
+        g1_nodes = [n_ for n_ in model.nodes() if model.spec[n_][0] == "g1"]
+        if g1_nodes:
+            node = g1_nodes[case["post_edit"][0] % len(g1_nodes)]
+            old_sp = model.spec[node]
+            names = [x for x in gq.NAMES1 if x != old_sp[1]]
+            new_sp = ["g1", names[case["post_edit"][1] % len(names)], old_sp[2], old_sp[3]]
+            try:
+                circ.replace_op(node, gq.make_op(new_sp))
+            except Exception:
+                new_sp = None  # replace_op itself is C12's subject
+            if new_sp is not None:
+                model.spec[node] = new_sp
+                ctx.probe("edited_after_compile")
+                for backend in ("stab", "dm"):
+                    for det in (1, 0):
+                        ctx.steps += 1
+                        ok, _, _ = execute(ctx, case, circ, model, backend, det, [], psi0, factory)
+                        if not ok:
+                            break
+                    if not ok:
+                        break
     ctx.log("program", specs)
     return ctx.result(nontrivial, sample={"ne": case["ne"], "np": case["np"], "nc": case["nc"], "init": case.get("init"), "program": case["history"][:12]})
